@@ -71,6 +71,7 @@ impl Monitor for C13 {
             n_max: if rng.chance(1, 8) { tier.pick(60, 120) } else { 28 },
             defaults: true,
             flags: true,
+            dangling_replacement: false,
             empty_recs: path != PathKind::Jax,
             ..GenCfg::default()
         };
